@@ -12,6 +12,7 @@ import (
 	"golang.org/x/tools/go/ssa"
 
 	. "verif/rcheck/engine"
+	"verif/rcheck/luafront"
 )
 
 func init() {
@@ -36,6 +37,7 @@ func init() {
 	imp("C03", "C14", map[string]string{"R14.1": "R3.6"}, "(R3.6 = C14 R14.1) every built-in ingress class script clears each key it may set before deciding the current step's values, so the weight / match of an earlier step cannot survive into a step that does not set it.")
 	imp("C06", "C05", map[string]string{"R5.2": "R6.6"}, "(R6.6 = C05 R5.2) a multi-write teardown is repaired after a crash or fault between its writes: the paired undo (RestoreHPA, canary Delete) is not guarded by a marker that an earlier write of the same pass already flipped, and is passed on every success return.")
 	imp("C07", "C01", map[string]string{"R1.5": "R7.6"}, "(R7.6 = C01 R1.5) target and readiness arithmetic round the same way (roundUp=true at every replica percentage, including the no-op guard of UpgradeBatch): otherwise the update target falls one short of what readiness demands and the batch never becomes ready.")
+	extend("C03", "(R3.5) the step's weight reaches the Ingress annotation unmodified: EnsureRoutes scales strategy.traffic against 100 with roundUp, a fresh canary Ingress is created with weight 0, executeLuaForCanary renders exactly that integer (or the -1 sentinel) into the script input, and every built-in class script assigns obj.weight itself to its weight annotation (Gateway: C13 R13.2, custom provider: C15 R15.5).", extraC03)
 	extend("C04", "(R4.7) inside the route-withdrawal chain (everything reachable from Manager.RestoreGateway, FinalisingTrafficRouting, RemoveCanaryService and the providers' Finalise) no error of a call that can fail at the API server is lost: a swallowed error reads as 'routes withdrawn' and the canary Service is removed while routes still point at it.", extraC04)
 	extend("C14", "(R14.7) no API error of the Ingress provider is lost (a swallowed read error in Finalise reads as 'canary Ingress already gone').", extraC14)
 	extend("C05", "(R5.1d) what Initialize saves is merged with what was saved before: the value serialised into the original-setting / deployment-strategy annotation depends on the previously saved annotation, so re-initialising a held-back workload cannot overwrite the user's settings with the hold-back values.", extraC05)
@@ -132,7 +134,7 @@ func extraC01(c *Ctx) {
 					if t.Op == "call" && len(t.Args) == 1 && t.Args[0].Op == "const" && (NameMatch(t.Name, "intstr.FromInt") || NameMatch(t.Name, "intstr.FromInt32")) && t.Args[0].Name == "0" {
 						isZero = true
 					}
-					if t.Op == "call" && len(t.Args) == 1 && t.Args[0].Op == "const" && NameMatch(t.Name, "intstr.FromString") && (t.Args[0].Name == `"0"` || t.Args[0].Name == `"0%"`) {
+					if t.Op == "call" && len(t.Args) == 1 && t.Args[0].Op == "const" && NameMatch(t.Name, "intstr.FromString") && (t.Args[0].Name == "0" || t.Args[0].Name == "0%") {
 						isZero = true
 					}
 					if isZero {
@@ -912,4 +914,98 @@ func extraC14(c *Ctx) {
 	checkErrorDisciplineF(c, "R14.7", func(fn *ssa.Function) bool {
 		return strings.HasPrefix(FuncName(fn), "pkg/trafficrouting/network/ingress.")
 	}, sel)
+}
+
+// ---------------------------------------------------------------- C03: R3.5 (Ingress)
+
+func extraC03(c *Ctx) {
+	p := c.Prog
+	c.Rule("R3.5", "the step's weight reaches the Ingress annotation unmodified", 7)
+	ens := p.Func("pkg/trafficrouting/network/ingress.ingressController.EnsureRoutes")
+	exe := p.Func("pkg/trafficrouting/network/ingress.ingressController.executeLuaForCanary")
+	if ens == nil || exe == nil {
+		c.Unresolved("R3.5", "ingress EnsureRoutes / executeLuaForCanary")
+		return
+	}
+	for _, ci := range CallsIn(ens, "ingress.ingressController.executeLuaForCanary") {
+		w := ci.Common().Args[2]
+		t := TermOf(w)
+		if t.Op == "call" && NameMatch(t.Name, "pointer.Int32") && len(t.Args) == 1 && t.Args[0].Op == "const" {
+			ok := t.Args[0].Name == "0"
+			c.Ob("R3.5", "ingress.EnsureRoutes#create-weight", ci.Pos(), ok, "a new canary Ingress starts with weight 0", ifs(!ok, "created with weight "+t.Args[0].Name))
+			continue
+		}
+		scaled := false
+		for x := range BackwardSlice(w) {
+			call, ok := x.(*ssa.Call)
+			if !ok || !NameMatch(CalleeName(&call.Call), "intstr.GetScaledValueFromIntOrPercent") {
+				continue
+			}
+			a := call.Call.Args
+			if k1, ok1 := a[1].(*ssa.Const); ok1 && constText(k1) == "100" {
+				if k2, ok2 := a[2].(*ssa.Const); ok2 && constText(k2) == "true" && SliceHas(a[0], MField("Traffic")) {
+					scaled = true
+				}
+			}
+		}
+		arith := false
+		for x := range BackwardSlice(w) {
+			if b, ok := x.(*ssa.BinOp); ok {
+				switch b.Op.String() {
+				case "+", "-", "*", "/", "%":
+					arith = true
+				}
+			}
+		}
+		c.Ob("R3.5", "ingress.EnsureRoutes#step-weight", ci.Pos(), scaled && !arith, "the weight handed to the script is strategy.traffic scaled against 100 (roundUp), with no further arithmetic", ifs(!scaled, "not GetScaledValueFromIntOrPercent(traffic, 100, true); ")+ifs(arith, "arithmetic is applied to the weight"))
+	}
+	// executeLuaForCanary: Weight = Sprintf("%d", *weight), weight = parameter or the -1 sentinel
+	n := 0
+	for _, st := range StoresToField(exe, func(fa *ssa.FieldAddr) bool { nm, _ := FieldOf(fa); return nm == "Weight" }) {
+		n++
+		t := TermOf(st.Val)
+		okFmt := t.Op == "call" && NameMatch(t.Name, "fmt.Sprintf") && len(t.Args) >= 1 && t.Args[0].Op == "const" && t.Args[0].Name == "%d"
+		okSrc := SliceHas(st.Val, func(x *Term) bool { return x.Op == "param" && x.Name == "weight" })
+		bad := ""
+		for x := range BackwardSlice(st.Val) {
+			if b, ok := x.(*ssa.BinOp); ok {
+				switch b.Op.String() {
+				case "+", "-", "*", "/", "%":
+					bad = "arithmetic (" + b.Op.String() + ") is applied to the weight"
+				}
+			}
+			if k, ok := x.(*ssa.Const); ok && k.Value != nil && k.Value.Kind() == constant.Int && constText(k) != "-1" && constText(k) != "0" && constText(k) != "1" {
+				bad = "constant " + constText(k) + " flows into the weight"
+			}
+		}
+		c.Ob("R3.5", "ingress.executeLuaForCanary#render", st.Pos(), okFmt && okSrc && bad == "", "script input weight = the integer weight rendered with %d (or the -1 sentinel)", ifs(!okFmt, "not rendered with \"%d\"; ")+ifs(!okSrc, "does not derive from the weight parameter; ")+bad)
+	}
+	if n == 0 {
+		c.Ob("R3.5", "ingress.executeLuaForCanary#render", exe.Pos(), false, "LuaData.Weight store", "anchor not found")
+	}
+	// class scripts
+	dir := p.Dir + "/lua_configuration/trafficrouting_ingress"
+	for _, name := range []string{"nginx.lua", "aliyun-alb.lua", "higress.lua", "mse.lua"} {
+		src, err := p.ReadFile(dir + "/" + name)
+		if err != nil {
+			c.Ob("R3.5", name+"#weight", 0, false, "class script readable", err.Error())
+			continue
+		}
+		sc, err := luafront.ParseBytes(dir+"/"+name, src)
+		if err != nil {
+			c.Ob("R3.5", name+"#weight", 0, false, "class script parses", err.Error())
+			continue
+		}
+		found, bad := false, ""
+		for _, a := range sc.Assigns {
+			if a.Table != "annotations" || !strings.HasSuffix(a.Key, "canary-weight") || a.Nil {
+				continue
+			}
+			found = true
+			if a.Rhs != "obj.weight" && a.Rhs != `obj["weight"]` {
+				bad = fmt.Sprintf("line %d assigns %s", a.Line, a.Rhs)
+			}
+		}
+		c.Ob("R3.5", name+"#weight", 0, found && bad == "", "the weight annotation is assigned obj.weight itself", ifs(!found, "no weight annotation assignment found; ")+bad)
+	}
 }
